@@ -21,7 +21,7 @@
 (* Verdicts are total: failed clauses are collected in `bad` and printed   *)
 (* by an invariant that is always TRUE.                                    *)
 (***************************************************************************)
-EXTENDS ProblemKindLatticeTables, ProblemKindLattice
+EXTENDS ProblemKindLattice, ProblemKindLatticeTables
 
 KindRows  == ndJsonDeserialize(IOEnv.KINDS)     \* written by ProblemKindLatticeEnum
 StateRows == ndJsonDeserialize(IOEnv.STATES)
